@@ -1247,3 +1247,56 @@ def mutable_container_model(ctx, rule):
                  key=f.qualname + "::mutable-container-model", input="Selector(objects=OrderedDict(...)); inst.param.s.objects['k'] = v -> visible on the class")
     else:
         ctx.ok(rule, f, f.node, "_is_mutable_container: True exactly for mutable containers, subclasses and non-builtins included (%d kinds)" % len(kinds))
+
+
+def watcher_new_model(ctx, rule):
+    """Watcher.__new__ interpreted abstractly: fields given by keyword or by position, precedence an integer, a fraction
+    (0.5), a negative internal one (-1) or absent.  Specification: every field given is handed on unchanged -- the
+    precedence in particular is stored AS GIVEN (dispatch sorts by it; truncating 0.25 / 0.5 / 0.75 to 0 turns a declared
+    order into registration order) -- and a missing precedence becomes 0."""
+    from engine.absint import Interp, Obj, Unsupported
+    from engine.loader import AnalysisError
+    f = ctx.repo.method(P + "Watcher", "__new__")
+    fields = ["inst", "cls", "fn", "mode", "onlychanged", "parameter_names", "what", "queued", "precedence"]
+    problems, n = [], 0
+    for how in ("keywords", "positional"):
+        for prec in (3, 0.5, -1, 0, "absent"):
+            given = {"inst": Obj("inst"), "cls": Obj("cls"), "fn": Obj("fn"), "mode": "args", "onlychanged": True, "parameter_names": ("a",), "what": "value", "queued": False}
+            if prec != "absent":
+                given["precedence"] = prec
+            built = []
+
+            def hook(fn, args, kwargs):
+                if fn == "super().__new__":
+                    built.append(dict(kwargs))
+                    return Obj("watcher")
+                if fn == "int" and len(args) == 1 and isinstance(args[0], (int, float)):
+                    return int(args[0])
+                if fn == "float" and len(args) == 1 and isinstance(args[0], (int, float)):
+                    return float(args[0])
+                return NotImplemented
+            cls_ = Obj("Watcher", _fields=tuple(fields))
+            it = Interp(ctx.hier, dyn=P + "Watcher", inline=lambda m: False, call_hook=hook)
+            pos = tuple(given[k] for k in fields if k in given) if how == "positional" else ()
+            kw = {} if how == "positional" else dict(given)
+            try:
+                outs = it.run_all(f, {f.params[0]: cls_, "args": pos, "kwargs": kw})
+            except Unsupported as e:
+                raise AnalysisError("%s: absint cannot interpret Watcher.__new__: %s" % (rule, e))
+            if len(outs) != 1 or outs[0].imprecise or outs[0].kind != "return" or len(built) != 1:
+                raise AnalysisError("%s: Watcher.__new__ is not interpretable precisely (%s)" % (rule, outs[0].notes[:2] if outs else "no outcome"))
+            n += 1
+            got = built[0]
+            want = dict(given)
+            want.setdefault("precedence", 0)
+            for k, v in want.items():
+                g = got.get(k, "<missing>")
+                same = (g is v) if isinstance(v, Obj) else (g == v and type(g) is type(v))
+                if not same:
+                    problems.append("Watcher(%s, precedence=%s) stores %s=%r, specification %r%s" % (how, prec, k, g, v,
+                                    ": watchers whose precedences differ only by a fraction run in registration order, not in precedence order" if k == "precedence" else ""))
+    ctx.abstract_cases += n
+    if problems:
+        ctx.fail(rule, f, f.node, "Watcher model: %s (%d disagreeing case(s))" % (problems[0], len(problems)), key=f.qualname + "::watcher-new-model")
+    else:
+        ctx.ok(rule, f, f.node, "Watcher model, %d cases: every field, the precedence included, is stored as given; a missing precedence is 0" % n)
